@@ -201,9 +201,16 @@ func (g *gl) builtin(name string, c *ast.CallExpr, bs *[]glBind) string {
 		}
 		return "(" + a + " ++ [" + strings.Join(xs, ", ") + "])"
 	case "make":
-		if g.leanType(g.typeOf(c)) == "Bytes" && len(c.Args) >= 2 {
+		if g.leanType(g.typeOf(c)) == "Bytes" && len(c.Args) == 2 {
 			n := g.fresh("t")
 			*bs = append(*bs, glBind{n, "(make " + g.toInt(g.expr(c.Args[1], bs), g.typeOf(c.Args[1])) + ")", false})
+			return n
+		}
+		if g.leanType(g.typeOf(c)) == "Bytes" && len(c.Args) == 3 { // len larger than cap panics
+			n := g.fresh("t")
+			l := g.toInt(g.expr(c.Args[1], bs), g.typeOf(c.Args[1]))
+			cp := g.toInt(g.expr(c.Args[2], bs), g.typeOf(c.Args[2]))
+			*bs = append(*bs, glBind{n, "(makeCap " + l + " " + cp + ")", false})
 			return n
 		}
 	case "new":
@@ -226,7 +233,10 @@ func (g *gl) builtin(name string, c *ast.CallExpr, bs *[]glBind) string {
 // helper, or folding a helper back, translates to the same term)
 func (g *gl) inlinable(t *glFn) bool {
 	sig := t.obj.Type().(*types.Signature)
-	if sig.Recv() != nil || sig.Results().Len() != 1 || len(t.decl.Body.List) != 1 || sig.Variadic() {
+	if sig.Results().Len() != 1 || len(t.decl.Body.List) != 1 || sig.Variadic() {
+		return false
+	}
+	if sig.Recv() != nil && g.leanType(sig.Recv().Type()) == "" {
 		return false
 	}
 	rs, ok := t.decl.Body.List[0].(*ast.ReturnStmt)
@@ -252,6 +262,10 @@ func (g *gl) inlinable(t *glFn) bool {
 
 func (g *gl) inlineCall(t *glFn, c *ast.CallExpr, bs *[]glBind) string {
 	sig := t.obj.Type().(*types.Signature)
+	if sig.Recv() != nil { // a method: the receiver is bound like a parameter (a single `return <expr>` assigns nothing)
+		r := g.expr(recvExpr(c), bs)
+		*bs = append(*bs, glBind{g.vname(sig.Recv()) + " : " + g.leanType(sig.Recv().Type()), r, true})
+	}
 	var args []string
 	for _, a := range c.Args {
 		args = append(args, g.expr(a, bs))
